@@ -268,7 +268,7 @@ class Gen(object):
         """MemberExpression (allow_call False) or CallExpression/MemberExpression chain"""
         k = 0
         if fuel > 0:
-            k = self.weighted([(16, 0), (2, 1), (2, 2)])
+            k = self.weighted([(8, 0), (5, 1), (2, 2)] if self.cfg.nesting_bias else [(16, 0), (2, 1), (2, 2)])
         if k == 1 and not nobf:
             t, toks = self.func_expr(fuel - 1)
         elif k == 2:
@@ -443,6 +443,8 @@ class Gen(object):
         if fuel > 0:
             n = self.weighted([(2, 0), (5, 1), (4, 2), (2, 3), (1, 4)])
             n = min(n, self.cfg.max_stmts)
+            if self.cfg.nesting_bias and n == 0 and self.chance(70):
+                n = 1
         elif self.chance(50):
             n = 1
         stmts, toks = [], []
@@ -483,9 +485,9 @@ class Gen(object):
             k = self.weighted([(8, 'expr'), (2, 'var'), (1, 'empty'), (1, 'ret'), (1, 'brk'), (1, 'dbg')])
         else:
             nb = 3 if c.nesting_bias else 1
-            opts = [(12, 'expr'), (5, 'var'), (2, 'empty'), (4 * nb, 'block'), (5, 'if'), (2, 'do'),
+            opts = [(12 // nb, 'expr'), (5, 'var'), (2, 'empty'), (4 * nb, 'block'), (5 * nb, 'if'), (2, 'do'),
                     (2, 'while'), (4, 'for'), (3, 'forin'), (2, 'ret'), (2, 'brk'), (2, 'throw'),
-                    (3 * nb, 'switch'), (3, 'try'), (1, 'dbg')]
+                    (3 * nb, 'switch'), (3 * nb, 'try'), (1, 'dbg')]
             if c.with_stmt:
                 opts.append((1, 'with'))
             if c.labels:
